@@ -181,7 +181,9 @@ def history_family(v, wd, n, seed, replay_case=None):
         sowner.append(res["id"])
         for o in res["order"]:
             sev.append(suite.frame_event({"stream_kind": o.get("kind") or "session", "type": o["type"], "stream_id": o["sid"], "seq": o["seq"],
-                                          "run_session_id": o.get("r"), "message_id": o.get("m"), "id": o.get("m"), "job_id": o.get("j"), "status": o.get("st")}))
+                                          "run_session_id": o.get("r"), "message_id": o.get("m"), "id": o.get("m"), "job_id": o.get("j"), "status": o.get("st"),
+                                    "to_seq": o.get("to_seq"), "to_message_id": o.get("to_message_id"), "parent_thread_id": o.get("parent_thread_id"),
+                                    "parent_seq": o.get("parent_seq"), "parent_message_id": o.get("parent_message_id"), "tool_id": o.get("tool_id")}))
             sowner.append(res["id"])
     p2 = os.path.join(wd, "system.ndjson")
     write_ndjson(p2, sev)
